@@ -33,14 +33,23 @@ Definition obs_eqb (a b : obs) : bool :=
   | _, _ => false end.
 Definition dump_eqb (a b : list (string * value)) : bool := list_eqb (pair_eqb String.eqb value_eqb) a b.
 
-Definition agrees (c : case) : bool :=
-  list_eqb (pair_eqb obs_eqb dump_eqb) (run_obs (k_backend c) w0 (k_labels c)) (k_obs c).
+Fixpoint agrees_from (bk : backend) (w : world) (ls : list label) (os : list (obs * list (string * value))) : bool :=
+  match ls, os with
+  | [], [] => true
+  | LPar x y :: r, (o, d) :: os' =>
+      let w1 := fst (step1 bk (fst (step1 bk w x)) y) in
+      let w2 := fst (step1 bk (fst (step1 bk w y)) x) in
+      obs_eqb ONone o
+      && (if dump_eqb (dump bk w1) d then agrees_from bk w1 r os'
+          else if dump_eqb (dump bk w2) d then agrees_from bk w2 r os' else false)
+  | l :: r, (o, d) :: os' =>
+      let '(w', o') := step bk w l in obs_eqb o' o && dump_eqb (dump bk w') d && agrees_from bk w' r os'
+  | _, _ => false
+  end.
+Definition agrees (c : case) : bool := agrees_from (k_backend c) w0 (k_labels c) (k_obs c).
 
 (* ---------- the universe of a script ---------- *)
-Definition lab_root (l : label) : string :=
-  match l with
-  | LPutInfo r _ | LGetInfo r _ | LDelInfo r _ | LPutPos r _ | LGetPos r _ _ | LDelPos r _ _ | LUpdPos r _ _ _ _ _ _ _ | LDropState r _ _
-  | LUpdState r _ _ _ _ | LDeleteTask r _ _ | LPutMsg r _ _ | LGetMsg r _ _ | LDelMsg r _ => r end.
+Definition flat (l : label) : list label := match l with LPar x y => [x; y] | _ => [l] end.
 Definition lab_task (l : label) : list string :=
   match l with
   | LPutInfo _ i => [ti_task i] | LGetInfo _ t | LDelInfo _ t | LGetPos _ t _ | LDelPos _ t _ | LUpdPos _ t _ _ _ _ _ _ | LDropState _ t _
@@ -49,8 +58,8 @@ Definition lab_task (l : label) : list string :=
 Definition lab_coll (l : label) : list Z :=
   match l with
   | LGetPos _ _ c | LDelPos _ _ c | LUpdPos _ _ c _ _ _ _ _ | LDropState _ _ c => [c] | LPutPos _ p => [pr_coll p] | _ => [] end.
-Definition tasks_of (ls : list label) : list string := flat_map lab_task ls.
-Definition colls_of (ls : list label) : list Z := (-1)%Z :: flat_map lab_coll ls.
+Definition tasks_of (ls : list label) : list string := flat_map lab_task (flat_map flat ls).
+Definition colls_of (ls : list label) : list Z := (-1)%Z :: flat_map lab_coll (flat_map flat ls).
 Definition msgkeys_of (ls : list label) : list string := flat_map (fun l => match l with LPutMsg _ k _ | LDelMsg _ k => [k] | LGetMsg _ k false => [k] | _ => [] end) ls.
 
 Definition dlookup (d : list (string * value)) (k : string) : option value :=
@@ -61,7 +70,7 @@ Definition ovalue_eqb (a b : option value) : bool := option_eqb value_eqb a b.
 Definition pos_keys (ls : list label) (r t : string) : list string := map (fun c => pos_key r t c) (colls_of ls).
 
 (* which keys may an operation change *)
-Definition may_change (ls : list label) (l : label) : list string :=
+Definition may_change1 (ls : list label) (l : label) : list string :=
   match l with
   | LPutInfo r i => [info_key r (ti_task i)]
   | LDelInfo r t => [info_key r t]
@@ -73,6 +82,7 @@ Definition may_change (ls : list label) (l : label) : list string :=
   | LDeleteTask r t _ => info_key r t :: pos_keys ls r t
   | LPutMsg r k _ | LDelMsg r k => [msg_key r k]
   | _ => [] end.
+Definition may_change (ls : list label) (l : label) : list string := flat_map (may_change1 ls) (flat l).
 
 Definition frame_ok (ls : list label) (l : label) (d d' : list (string * value)) : bool :=
   let allowed := may_change ls l in
@@ -127,11 +137,42 @@ Definition read_ok (ls : list label) (l : label) (o : obs) (d : list (string * v
       else true
   | _, _ => true end.
 
+(* two concurrent checkpoint operations on one record: both take effect - each named channel entry holds its new checkpoint
+   (unless it was frozen before, or the concurrent operation is the drop mark and came first), no other entry changes, and after
+   a concurrent drop mark every entry is frozen *)
+Definition entry_is (m : chmap) (ch : string) (p : option pinfo) : bool :=
+  match p with None => true | Some x => match alookup m ch with Some v => pinfo_eqb v x | None => false end end.
+Definition entry_frozen_or (m m' : chmap) (ch : string) (p : option pinfo) : bool :=
+  match alookup m ch with
+  | Some o => if pi_dropped o then (match alookup m' ch with Some v => pinfo_eqb v o | None => false end) else entry_is m' ch p
+  | None => entry_is m' ch p end.
+Definition was_dropped (m m' : chmap) : bool :=
+  forallb (fun kv => match alookup m' (fst kv) with Some v => pi_dropped v | None => false end) m.
+Definition undropped (p : pinfo) : pinfo := {| pi_time := pi_time p; pi_key := pi_key p; pi_tok := pi_tok p; pi_dropped := false |}.
+Definition par_ok (l : label) (d d' : list (string * value)) : bool :=
+  match l with
+  | LPar (LUpdPos r t c _ ch p op _) (LUpdPos _ _ _ _ ch' p' op' _) =>
+      match dlookup d (pos_key r t c), dlookup d' (pos_key r t c) with
+      | Some (VP a), Some (VP b) =>
+          entry_frozen_or (pr_pos a) (pr_pos b) ch p && entry_frozen_or (pr_pos a) (pr_pos b) ch' p'
+          && entry_frozen_or (pr_op a) (pr_op b) ch op && entry_frozen_or (pr_op a) (pr_op b) ch' op'
+          && entries_ok (pr_pos a) (pr_pos b) [ch; ch'] && entries_ok (pr_op a) (pr_op b) [ch; ch']
+      | _, _ => false end
+  | LPar (LUpdPos r t c _ ch p op _) (LDropState _ _ _) =>
+      match dlookup d (pos_key r t c), dlookup d' (pos_key r t c) with
+      | Some (VP a), Some (VP b) =>
+          (* every entry that existed is frozen afterwards (an entry first written after the mark is a new one) *)
+          was_dropped (pr_pos a) (pr_pos b) && was_dropped (pr_op a) (pr_op b) && was_dropped (pr_tgt a) (pr_tgt b)
+          (* every entry other than the updated channel keeps its checkpoint *)
+          && forallb (fun kv => String.eqb (fst kv) ch || match alookup (pr_pos b) (fst kv) with Some v => pinfo_eqb (undropped v) (undropped (snd kv)) | None => false end) (pr_pos a)
+      | _, _ => false end
+  | _ => true end.
+
 Fixpoint steps_ok (ls : list label) (rest : list label) (d : list (string * value)) (os : list (obs * list (string * value))) : bool :=
   match rest, os with
   | [], [] => true
   | l :: r, (o, d') :: os' =>
-      frame_ok ls l d d' && record_ok l d d' && delete_ok ls l o d d' && read_ok ls l o d && steps_ok ls r d' os'
+      frame_ok ls l d d' && record_ok l d d' && par_ok l d d' && delete_ok ls l o d d' && read_ok ls l o d && steps_ok ls r d' os'
   | _, _ => false end.
 
 Definition check_C12 (c : case) : bool := steps_ok (k_labels c) (k_labels c) [] (k_obs c).
